@@ -28,13 +28,10 @@ def run(ctx):
         lp = forall_loop(ctx, p3, "LOOPDOM", "accept(share_l)==verify(own id, share_l, commitment_l)", lambda s: s == ("arg", 3),
                          [("SecretShare.verify()?", chk)], require_fail_err=False)
         if lp is not None:
-            it = lp["iter_term"]
-            item = lambda t: t[0] == "some" and is_call(t[1], name="next") and t[1][2][0] == it
-            m = chk(item)
-            edges = {e for (e, fa) in v.facts if m(fa) == "pass"}
-            adds = {bb for (bb, t, ci) in p3.calls() if ci and ci.get("name") == "add" and bb in lp["body"]
-                    and any(mentions(x, lambda s: fld(tfield(item, 1), "signing_share")(s)) for x in v.call_args(bb))}
-            ctx.check(bool(adds) and not sep(p3, edges, adds), "LOOPDOM", p3.key, "accepted-before-used",
+            item = lp["item"]
+            takes_share = lambda ci, a: bool(ci) and ci.get("name") == "add" and \
+                any(mentions(x, tfield(item, 1)) for x in a)
+            ctx.check(used_after_check(lp, takes_share), "LOOPDOM", p3.key, "accepted-before-used",
                       "a round-two share is used before / without its acceptance check", p3.loc)
         # sender sets coincide
         anyf = lambda fa: (None if not (fa[0] == "cond" and fa[1] == "any" and is_call(fa[2], name="keys") and fa[2][2][0] == ("arg", 2)
